@@ -5,8 +5,8 @@
    schedule of buffer sizes returns c_i), with the name, method, sizes and CRC that were written. *)
 From Coq Require Import ZArith.
 From ZipV Require Import Base.Bytes Base.Outcome Gen.GenLib Gen.SpecGen Gen.CompressionGen Gen.TypesGen Gen.WriteGen
-     Spec.Utf8 Model.Cp437 Model.Readers Model.Reader Model.Writer
-     Proofs.StreamProofs Proofs.Zip64Proofs Proofs.WriterIdeal Proofs.CentralRoundtrip Proofs.OpenRendered Proofs.EntryRead Proofs.WriterEntry.
+     Spec.Utf8 Model.Cp437 Model.Readers Model.Reader Model.Stream Model.Writer
+     Proofs.StreamProofs Proofs.Zip64Proofs Proofs.WriterIdeal Proofs.CentralRoundtrip Proofs.OpenRendered Proofs.EntryRead Proofs.WriterEntry Proofs.StreamRendered.
 Open Scope N_scope.
 
 (* one finished entry lies in the sink: header, then content, at the offset its record names *)
@@ -248,7 +248,8 @@ Section Many.
     oi_closed : Forall (closed_ok front) cls;
     oi_f : f = wf_set_data_start (mk_wfile name (with_perm o 420 32768) None (len front)) (len front + 30 + len name);
     oi_ok : len name <= 65535 /\ stored_opts o /\ dos_ok (o_time o);
-    oi_comment : ws_comment s = [] }.
+    oi_comment : ws_comment s = [];
+    oi_d : DateTime_datepart (o_time o) = Some d }.
 
   Lemma hdr_exists name o hs : dos_ok (o_time o) -> stored_opts o ->
     exists hdr, local_header_chunks (mk_wfile name (with_perm o 420 32768) None hs) = Ok hdr.
@@ -270,7 +271,7 @@ Section Many.
       Forall (closed_ok b) (cls ++ [(f', cs, content)]) /\
       ws_to_extra s' = false /\ ws_raw s' = false /\ ws_comment s' = [] /\ w_name f = name.
   Proof.
-    intros [Heo Hcl Hf (Hn & Ho & Hdos) Hcm] Hlen Hfront.
+    intros [Heo Hcl Hf (Hn & Ho & Hdos) Hcm Hdd] Hlen Hfront.
     destruct (finish_file_stored enc crc s front f d content _ Heo Hlen (crc32 content)) as (s' & Hff & Hin' & Hfiles' & Hx' & Hraw' & Htf' & Hcm' & Hco').
     destruct (stored_record_rendered kdf blk mac enc crc crc32 name o (len front) (len front + 30 + len name) content Hn Ho Hdos Hlen Hfront) as [cs Hcs].
     rewrite <- Hf in Hcs.
@@ -322,6 +323,7 @@ Section Many.
       rewrite len_lh_bytes. cbn [mk_wfile w_name]. lia.
     - auto.
     - rewrite Hcm2, Hcm1. exact Hcm'.
+    - exact Hd2.
   Qed.
 
   Fixpoint layout_len (es : list entry) : N :=
@@ -462,5 +464,203 @@ Section Many.
                 (dir ++ concat (end_records (N.of_nat (length ((n1, o1, c1) :: rest))) (len b) (len dir) [])) b)
       as (ds & cr & Hby & Hpi & Hden); [reflexivity|exact Hlay|rewrite Nat2N.id; exact Hg|lia|].
     exists dt, p, ds, cr. auto.
+  Qed.
+
+  (* ---------- the sink as a sequence of entries (what a forward-only reader walks over) *)
+  Definition raw := (wfile * N * bytes)%type.
+  Definition raw_bytes (r : raw) : bytes := let '(f, d, c) := r in lh_bytes f d (crc c) (len c) (len c) ++ c.
+  Definition entries_bytes (l : list raw) : bytes := concat (map raw_bytes l).
+  Definition raw_ok (r : raw) (cl : closed) : Prop :=
+    let '(f, d, c) := r in stored_rec f d /\ len c <= ZIP64_BYTES_THR /\ c = snd cl /\ w_name f = w_name (fst (fst cl)).
+  Definition seq_ok (front : bytes) (cls : list closed) : Prop :=
+    exists raws, front = entries_bytes raws /\ Forall2 raw_ok raws cls.
+
+  Lemma open_stored_rec s front f d content cls name o : open_inv s front f d content cls name o -> stored_rec f d /\ w_name f = name.
+  Proof.
+    intros [_ _ Hf (Hn & (Hm & _ & He & _) & (Htp & d' & Hd' & Hd16)) _ Hd]. rewrite Hd in Hd'. injection Hd' as <-.
+    split; [|rewrite Hf; reflexivity].
+    constructor; try exact Hd16; rewrite Hf; cbn [wf_set_data_start mk_wfile w_method w_encrypted w_name w_time with_perm o_method o_encrypt o_time]; auto.
+    rewrite He. reflexivity.
+  Qed.
+
+  Lemma seq_ok_snoc front cls f d content cs :
+    seq_ok front cls -> stored_rec f d -> len content <= ZIP64_BYTES_THR ->
+    seq_ok (front ++ lh_bytes f d (crc content) (len content) (len content) ++ content)
+           (cls ++ [(wf_set_sizes f (crc content) (len content) (len content), cs, content)]).
+  Proof.
+    intros (raws & -> & HF) R Hl. exists (raws ++ [(f, d, content)]). split.
+    - unfold entries_bytes. rewrite map_app, concat_app. cbn [map concat raw_bytes]. now rewrite app_nil_r.
+    - apply Forall2_app; [exact HF|]. constructor; [|constructor]. cbn [raw_ok snd fst wf_set_sizes w_name]. auto.
+  Qed.
+
+  Lemma write_rest_seq : forall rest s front f d content cls name o,
+    open_inv s front f d content cls name o -> len content <= ZIP64_BYTES_THR -> Forall entry_ok rest ->
+    len front + 30 + len name + len content + layout_len rest < 2 ^ 64 -> seq_ok front cls ->
+    exists s' front' f' d' content' cls' name' o',
+      write_entries s rest = (s', Ok tt) /\ open_inv s' front' f' d' content' cls' name' o' /\ len content' <= ZIP64_BYTES_THR /\
+      len front' + 30 + len name' + len content' = len front + 30 + len name + len content + layout_len rest /\
+      summary cls' name' content' = summary cls name content ++ map (fun e : entry => (fst (fst e), snd e)) rest /\
+      seq_ok front' cls'.
+  Proof.
+    induction rest as [|[[n2 o2] c2] rest IH]; intros s front f d content cls name o Hoi Hlen Hok Hb Hseq.
+    - exists s, front, f, d, content, cls, name, o. cbn [write_entries map layout_len] in *. rewrite app_nil_r.
+      split; [reflexivity|]. split; [exact Hoi|]. split; [exact Hlen|]. split; [lia|]. split; [reflexivity|exact Hseq].
+    - inversion Hok as [|? ? He2 Hrest]; subst. cbn [layout_len] in Hb.
+      destruct (next_entry s front f d content cls name o n2 o2 c2 Hoi Hlen) as (s2 & cs & f2 & d2 & Hsf & Hw & Hoi2); [lia|exact He2|].
+      cbv zeta in Hoi2.
+      destruct (open_stored_rec _ _ _ _ _ _ _ _ Hoi) as [HR Hfn].
+      pose proof (seq_ok_snoc front cls f d content cs Hseq HR Hlen) as Hseq2.
+      set (f' := wf_set_sizes f (crc content) (len content) (len content)) in *.
+      set (b := front ++ lh_bytes f d (crc content) (len content) (len content) ++ content) in *.
+      assert (Hbl : len b = len front + 30 + len name + len content)
+        by (subst b; rewrite !len_app, len_lh_bytes, Hfn; lia).
+      destruct He2 as (Hn2 & Ho2 & Hdos2 & Hlen2).
+      destruct (IH s2 b f2 d2 c2 (cls ++ [(f', cs, content)]) n2 o2 Hoi2 Hlen2 Hrest) as
+        (s' & front' & f'' & d' & content' & cls' & name' & o' & Hwe & Hoi' & Hl' & Hb' & Hsum & Hseq'); [rewrite Hbl; lia|exact Hseq2|].
+      exists s', front', f'', d', content', cls', name', o'.
+      cbn [write_entries]. destruct (start_file enc crc s n2 o2) as [s1 r1] eqn:Es. cbn [fst] in Hsf, Hw. injection Hsf as ->.
+      rewrite Hw. split; [exact Hwe|]. split; [exact Hoi'|]. split; [exact Hl'|]. split; [cbn [layout_len]; rewrite Hb', Hbl; lia|].
+      split; [|exact Hseq'].
+      rewrite Hsum. unfold summary. rewrite map_app. cbn [map fst snd]. subst f'. cbn [wf_set_sizes w_name]. rewrite Hfn.
+      rewrite <- !app_assoc. reflexivity.
+  Qed.
+
+  (* ---------- the streaming reader walks exactly these entries and stops at the central directory *)
+  Definition raw_seen (data : bytes) (r : raw) (e : sentry) : Prop :=
+    let '(f, d, c) := r in
+    f_name_raw (se_file e) = w_name f /\ f_method (se_file e) = CompressionMethod_Stored /\
+    f_crc (se_file e) = crc c /\ f_usize (se_file e) = len c /\ f_csize (se_file e) = len c /\ entry_payload data e = c.
+
+  Lemma len_raw_bytes f d c : len (raw_bytes (f, d, c)) = 30 + len (w_name f) + len c.
+  Proof. cbn [raw_bytes]. rewrite len_app, len_lh_bytes. reflexivity. Qed.
+
+  Theorem stream_walk : forall raws front rest fuel,
+    Forall (fun r : raw => stored_rec (fst (fst r)) (snd (fst r)) /\ len (snd r) <= ZIP64_BYTES_THR) raws ->
+    (length raws < fuel)%nat ->
+    let data := front ++ entries_bytes raws ++ le 4 CENTRAL_DIRECTORY_HEADER_SIGNATURE ++ rest in
+    exists es, stream_entries fuel data (len front) = (es, Ok (len front + len (entries_bytes raws) + 4)) /\
+               Forall2 (raw_seen data) raws es.
+  Proof.
+    induction raws as [|[[f d] c] rs IH]; intros front rest fuel HF Hfuel data.
+    - destruct fuel as [|fu]; [cbn [length] in Hfuel; lia|]. exists []. split; [|constructor].
+      cbn [stream_entries]. unfold stream_next.
+      assert (Hs : u32_at data (len front) = Ok CENTRAL_DIRECTORY_HEADER_SIGNATURE).
+      { subst data. unfold entries_bytes. cbn [map concat app]. unfold u32_at. rewrite <- (N.add_0_r (len front)), rd_skip, rd_head_le.
+        cbn [bind]. rewrite unle_le4 by (unfold CENTRAL_DIRECTORY_HEADER_SIGNATURE; lia). reflexivity. }
+      rewrite Hs. cbn [bind]. rewrite N.eqb_refl. unfold entries_bytes. cbn [map concat]. change (len []) with 0. rewrite N.add_0_r. reflexivity.
+    - destruct fuel as [|fu]; [cbn [length] in Hfuel; lia|].
+      inversion HF as [|? ? [HR Hlc] HF']; subst. cbn [fst snd] in HR, Hlc.
+      set (tail := le 4 CENTRAL_DIRECTORY_HEADER_SIGNATURE ++ rest) in *.
+      assert (Hdata : data = front ++ lh_bytes f d (crc c) (len c) (len c) ++ c ++ (entries_bytes rs ++ tail)).
+      { subst data. unfold entries_bytes. cbn [map concat raw_bytes]. rewrite <- !app_assoc. reflexivity. }
+      destruct (stream_next_rendered f d (crc c) (len c) front c (entries_bytes rs ++ tail) HR (crc32 c) Hlc) as (dt & Hdt & Hsn).
+      rewrite <- Hdata in Hsn.
+      cbn [stream_entries]. rewrite Hsn.
+      set (e := {| se_file := stream_file f dt (crc c) (len c); se_data_start := len front + 30 + len (w_name f) |}).
+      assert (Hpa : pos_after data e = len (front ++ raw_bytes (f, d, c))).
+      { unfold pos_after, e. cbn [se_file se_data_start stream_file f_csize].
+        rewrite len_app, len_raw_bytes.
+        assert (Hld : len front + 30 + len (w_name f) + len c <= len data).
+        { rewrite Hdata, !len_app, len_lh_bytes. lia. }
+        lia. }
+      rewrite Hpa.
+      assert (Hdata2 : data = (front ++ raw_bytes (f, d, c)) ++ entries_bytes rs ++ tail).
+      { rewrite Hdata. cbn [raw_bytes]. rewrite <- !app_assoc. reflexivity. }
+      destruct (IH (front ++ raw_bytes (f, d, c)) rest fu HF') as (es & Hes & Hseen); [cbn [length] in Hfuel; lia|].
+      cbv zeta in Hes, Hseen. fold tail in Hes, Hseen. rewrite <- Hdata2 in Hes, Hseen.
+      rewrite Hes. exists (e :: es). split.
+      + f_equal. f_equal. unfold entries_bytes. cbn [map concat]. rewrite !len_app. fold (entries_bytes rs). lia.
+      + constructor; [|exact Hseen]. cbn [raw_seen]. unfold e. cbn [se_file stream_file f_name_raw f_method f_crc f_usize f_csize].
+        repeat split.
+        unfold entry_payload. cbn [se_file se_data_start stream_file f_csize].
+        rewrite Hdata. destruct (lh_split f d (crc c) (len c)) as (fx & Hfx & Hsp). rewrite Hsp.
+        replace (front ++ (fx ++ w_name f) ++ c ++ entries_bytes rs ++ tail) with ((front ++ fx ++ w_name f) ++ c ++ entries_bytes rs ++ tail)
+          by (rewrite <- !app_assoc; reflexivity).
+        replace (len front + 30 + len (w_name f)) with (len (front ++ fx ++ w_name f)) by (rewrite !len_app, Hfx; lia).
+        rewrite drop_app_exact. apply take_app_exact.
+  Qed.
+
+  Lemma dir_starts_sig b (all : list closed) : Forall (closed_ok b) all -> all <> [] ->
+    exists dtail, concat (map (@concat byte) (map (fun cl : closed => snd (fst cl)) all)) = le 4 CENTRAL_DIRECTORY_HEADER_SIGNATURE ++ dtail.
+  Proof.
+    intros HF Hne. destruct all as [|[[f cs] c] r]; [contradiction|]. inversion HF as [|? ? Hc _]; subst.
+    cbn [closed_ok] in Hc. destruct Hc as [[_ Hch] _]. cbn [map concat fst snd].
+    destruct (central_chunks_flat _ _ Hch) as (dd & _ & _ & Hflat). rewrite Hflat. unfold central_fixed. rewrite <- !app_assoc. eexists; reflexivity.
+  Qed.
+
+  (* write, finish, then stream: the forward-only reader sees the written entries, in order, and stops at the directory *)
+  Theorem stored_stream_roundtrip n1 o1 c1 rest :
+    let es := (n1, o1, c1) :: rest in
+    Forall entry_ok es -> layout_len es + N.of_nat (length es) * 131218 < 2 ^ 64 ->
+    exists s' s3 data (raws : list raw) ents p,
+      write_entries (new_writer []) es = (s', Ok tt) /\
+      finish enc crc s' = (s3, Ok data) /\
+      stream_entries (S (length data)) data 0 = (ents, Ok p) /\
+      Forall2 (raw_seen data) raws ents /\
+      map (fun r : raw => (w_name (fst (fst r)), snd r)) raws = map (fun e : entry => (fst (fst e), snd e)) es.
+  Proof.
+    intros es Hok Hbound. subst es.
+    inversion Hok as [|? ? He1 Hrest]; subst. destruct He1 as (Hn1 & Ho1 & Hdos1 & Hlen1).
+    cbn [layout_len length] in Hbound.
+    assert (Hff0 : finish_file enc crc (new_writer []) = (new_writer [], Ok tt)) by reflexivity.
+    destruct (hdr_exists n1 o1 (len (@nil byte)) Hdos1 Ho1) as [hdr Hhdr].
+    destruct (start_file_stored enc crc (new_writer []) (new_writer []) [] n1 o1 hdr Hff0 eq_refl eq_refl eq_refl Hn1 Ho1 Hhdr)
+      as (s1 & f & d & Hsf & Heo & Hf & Hd & Hcm1 & Hco1).
+    destruct (write_stored crc s1 [] f d [] [] c1 Heo) as (s2 & Hw & Heo2 & Hcm2 & Hco2); [change (len []) with 0; lia|].
+    cbn [app] in Heo2.
+    assert (Hoi : open_inv s2 [] f d c1 [] n1 o1).
+    { constructor; auto.
+      - rewrite Hf. f_equal.
+        destruct (local_chunks_flat (mk_wfile n1 (with_perm o1 420 32768) None (len (@nil byte))) hdr) as (dd & _ & Hflat);
+          [cbn [mk_wfile w_large with_perm o_large]; apply Ho1|reflexivity|exact Hhdr|].
+        rewrite Hflat.
+        change (lh_head ?g dd ++ le 4 (w_crc ?g) ++ le 4 (w_csize ?g mod 2 ^ 32) ++ le 4 (w_usize ?g mod 2 ^ 32) ++ lh_tail ?g) with (lh_bytes g dd 0 0 0).
+        rewrite len_lh_bytes. cbn [mk_wfile w_name]. lia.
+      - rewrite Hcm2, Hcm1. reflexivity. }
+    assert (Hseq0 : seq_ok [] []) by (exists []; split; [reflexivity|constructor]).
+    destruct (write_rest_seq rest s2 [] f d c1 [] n1 o1 Hoi Hlen1 Hrest) as
+      (s' & front' & f' & d' & content' & cls' & name' & o' & Hwe & Hoi' & Hl' & Hb' & Hsum & Hseq'); [change (len []) with 0; lia|exact Hseq0|].
+    change (len []) with 0 in Hb'.
+    destruct (close_entry s' front' f' d' content' cls' name' o' Hoi' Hl') as (s'' & cs & Hff & Hrest'); [lia|]. cbv zeta in Hrest'.
+    destruct Hrest' as (Hin'' & Hfiles'' & Hcl'' & Hx'' & Hraw'' & Hcm'' & Hfn').
+    destruct (open_stored_rec _ _ _ _ _ _ _ _ Hoi') as [HR' _].
+    destruct (seq_ok_snoc front' cls' f' d' content' cs Hseq' HR' Hl') as (raws & Hb & HF2).
+    set (flast := wf_set_sizes f' (crc content') (len content') (len content')) in *.
+    set (b := front' ++ lh_bytes f' d' (crc content') (len content') (len content') ++ content') in *.
+    set (all := cls' ++ [(flast, cs, content')]) in *.
+    assert (HR : Forall2 rendered (ws_files s'') (map (fun cl : closed => snd (fst cl)) all))
+      by (rewrite Hfiles''; exact (closed_rendered b all Hcl'')).
+    assert (Hcomment : ws_comment s' = []) by (destruct Hoi'; assumption).
+    assert (Hclen : len (ws_comment s') <= 65535) by (rewrite Hcomment; change (len []) with 0; lia).
+    destruct (finish_ideal enc crc s' s'' b (map (fun cl : closed => snd (fst cl)) all) Hff Hin'' Hclen) as [s3 Hfin];
+      [rewrite Hcm'', Hcomment; reflexivity|apply Forall2_rendered_chunks; exact HR|].
+    set (dir := concat (map (@concat byte) (map (fun cl : closed => snd (fst cl)) all))) in *.
+    (* the directory starts with a central header signature *)
+    assert (Hdir : exists dtail, dir = le 4 CENTRAL_DIRECTORY_HEADER_SIGNATURE ++ dtail).
+    { subst dir. apply (dir_starts_sig b all Hcl''). subst all. destruct cls'; discriminate. }
+    destruct Hdir as [dtail Hdir].
+    set (tailb := concat (end_records (N.of_nat (length (ws_files s''))) (len b) (len dir) (ws_comment s'))) in *.
+    assert (Hrawsok : Forall (fun r : raw => stored_rec (fst (fst r)) (snd (fst r)) /\ len (snd r) <= ZIP64_BYTES_THR) raws).
+    { clear - HF2. induction HF2 as [|[[fr dr] cr] cl rs cs' (A & B & _) _ IH]; constructor; auto. }
+    destruct (stream_walk raws [] (dtail ++ tailb) (S (length (b ++ dir ++ tailb))) Hrawsok) as (ents & Hents & Hseen).
+    { apply (f_equal (@length _)) in Hb. rewrite app_length. 
+      assert (length raws <= length (entries_bytes raws))%nat.
+      { clear. induction raws as [|[[fr dr] cr] rs IH]; [cbn; lia|]. unfold entries_bytes in *. cbn [map concat length]. rewrite app_length.
+        pose proof (len_raw_bytes fr dr cr) as X. unfold len in X. lia. }
+      rewrite Hb. lia. }
+    cbv zeta in Hents, Hseen. cbn [app] in Hents, Hseen. change (len []) with 0 in Hents.
+    assert (Hdat : entries_bytes raws ++ le 4 CENTRAL_DIRECTORY_HEADER_SIGNATURE ++ dtail ++ tailb = b ++ dir ++ tailb).
+    { rewrite <- Hb, Hdir, <- !app_assoc. reflexivity. }
+    rewrite Hdat in Hents, Hseen.
+    exists s', s3. eexists. exists raws, ents. eexists.
+    split. { cbn [write_entries]. rewrite Hsf, Hw. exact Hwe. }
+    split; [exact Hfin|]. split; [exact Hents|]. split; [exact Hseen|].
+    (* names and contents *)
+    assert (Hall : map (fun cl : closed => (w_name (fst (fst cl)), snd cl)) all = map (fun e : entry => (fst (fst e), snd e)) ((n1, o1, c1) :: rest)).
+    { subst all. rewrite map_app. cbn [map fst snd]. subst flast. cbn [wf_set_sizes w_name]. rewrite Hfn'.
+      change (map (fun cl : closed => (w_name (fst (fst cl)), snd cl)) cls' ++ [(name', content')]) with (summary cls' name' content').
+      rewrite Hsum. reflexivity. }
+    rewrite <- Hall. clear - HF2. induction HF2 as [|[[fr dr] cr] [[fc csc] cc] rs cs' (A & B & C & D) _ IH]; [reflexivity|].
+    cbn [map fst snd] in *. rewrite IH. f_equal. f_equal; auto.
   Qed.
 End Many.
